@@ -1,0 +1,14 @@
+//go:build verif
+
+package channel
+
+// VerifYield, when set by the verification harness, is called at named points of the read loop,
+// Close and Read so that the harness can record label traces and force goroutine orders. It is
+// compiled in only with the "verif" build tag.
+var VerifYield func(label string) //nolint:gochecknoglobals
+
+func verifYield(label string) {
+	if f := VerifYield; f != nil {
+		f(label)
+	}
+}
